@@ -53,11 +53,13 @@ def dec_map(c):
     x //= len(NUMS)
     v = x % 50
     x //= 50
+    if v >= 47:
+        v = [None, "", 0][v - 47]    # None and falsy values are values like any other
     if op in ("set", "setdefault"):
         return [op, k, v]
     if op == "update":
         n = x % 4
-        return [op, [[NUMS[(x // 4 + 3 * i) % len(NUMS)], (v + i) % 50] for i in range(n)]]
+        return [op, [[NUMS[(x // 4 + 3 * i) % len(NUMS)], ((v if isinstance(v, int) else 7) + i) % 47] for i in range(n)]]
     return [op, k]
 
 
